@@ -1,32 +1,68 @@
-(* C09 — protocol entities and stanzas convert into each other without loss (PARTIAL: the
-   per-class theorems cover the classes in C09Schemas.registry; the harness reports the
-   reachable classes that have no schema yet).  Statements only; proofs in coq/C09. *)
-From YV Require Import Common.Tac C09.C09Model C09.C09Proofs C09.C09Schemas C09.C09Registry.
+(* C09 — protocol entities and stanzas convert into each other without loss.  The per-class
+   theorems cover the classes in C09Schemas.registry: every reachable entity class except the
+   two legacy ones that cannot build/serialise an entity under the pinned interpreter (the
+   harness recomputes the list on every run); message payloads are handled by a payload lens
+   parameter whose losslessness is C10's subject.  Statements only; proofs in coq/C09. *)
+From YV Require Import Common.Tac C09.C09Model C09.C09Proofs C09.C09Schemas C09.C09Registry
+     C09.C09Compose.
+From YV Require C10.C10Model.
 
-(* Generic, for every schema: on a stanza of the documented shape, entity construction and
-   re-serialisation succeed and reproduce the stanza: same tag, same data, same attribute map
-   up to "numbers compared by value", children pairwise equivalent in order. *)
-Theorem C09_lens_get_put : forall sc n,
-  lossless sc = true -> matches sc n = true ->
-  exists v n', get sc n = Some v /\ put sc v = Some n' /\ neqv n' n.
+(* Generic, for every schema and every payload lens PL (parse+convert / convert+serialise of
+   the <proto> data) that is lossless on its payload domain: on a stanza of the documented
+   shape, entity construction and re-serialisation succeed and reproduce the stanza: same tag,
+   same attribute map up to "numbers compared by value", same data (on a <proto> node: an
+   equivalent payload), children pairwise equivalent in order.  The schema language includes
+   the cross-field rule "same as attribute k of the parent" (retry/@id = receipt/@id). *)
+Theorem C09_lens_get_put : forall PL, pl_lossless PL -> forall sc n,
+  lossless sc = true -> matches PL sc [] n = true ->
+  exists v n', get PL sc n = Some v /\ put PL sc [] v = Some n' /\ neqv PL n' n.
 Proof. exact lens_get_put_thm. Qed.
 Print Assumptions C09_lens_get_put.
+
+(* The instance with the ideal payload lens (payload bytes reproduced exactly): no hypothesis
+   left, data equal byte for byte everywhere.  This is the model instance the harness runs. *)
+Theorem C09_lens_get_put_strict : forall sc n,
+  lossless sc = true -> matches pl_id sc [] n = true ->
+  exists v n', get pl_id sc n = Some v /\ put pl_id sc [] v = Some n' /\ neqv pl_id n' n.
+Proof. exact lens_get_put_strict_thm. Qed.
+Print Assumptions C09_lens_get_put_strict.
 
 Theorem C09_registry_lossless : Forall (fun e => lossless (e_schema e) = true) registry.
 Proof. exact registry_lossless_thm. Qed.
 Print Assumptions C09_registry_lossless.
 
-Theorem C09_all_classes_partial : forall e n, In e registry -> matches (e_schema e) n = true ->
-  exists v n', get (e_schema e) n = Some v /\ put (e_schema e) v = Some n' /\ neqv n' n.
+(* _partial: FULL statement = the same over every reachable entity class and every stanza of
+   its documented shape; proved for the registry (all reachable classes but ChallengeProtocolEntity
+   and CryptoIqProtocolEntity, which raise on every input under Python 3) on the documented
+   domain minus the open findings (message t="0", retry="0", absent offline; error backoff="0";
+   group-removal mode), and for the payload under the hypothesis pl_lossless PL. *)
+Theorem C09_all_classes_partial : forall PL, pl_lossless PL ->
+  forall e n, In e registry -> matches PL (e_schema e) [] n = true ->
+  exists v n', get PL (e_schema e) n = Some v /\ put PL (e_schema e) [] v = Some n' /\ neqv PL n' n.
 Proof. exact all_classes_thm. Qed.
 Print Assumptions C09_all_classes_partial.
+
+(* Composition with C10: the hypothesis on the payload is discharged by C10's round-trip
+   theorem for C10's model of the converter (any table T, any depth), given only that
+   protobuf's wire parser inverts its serialiser.  Payload equivalence here is C10's: the
+   library's view of the re-serialised payload covers the library's view of the received one. *)
+Theorem C09_all_classes_with_C10 :
+  forall (wire_parse : list N -> option C10Model.pmsg) (wire_ser : C10Model.pmsg -> list N),
+  (forall p, wire_parse (wire_ser p) = Some p) ->
+  forall T fuel cn e n, In e registry ->
+  matches (pl_c10 wire_parse wire_ser T fuel cn) (e_schema e) [] n = true ->
+  exists v n', get (pl_c10 wire_parse wire_ser T fuel cn) (e_schema e) n = Some v /\
+               put (pl_c10 wire_parse wire_ser T fuel cn) (e_schema e) [] v = Some n' /\
+               neqv (pl_c10 wire_parse wire_ser T fuel cn) n' n.
+Proof. exact all_classes_with_C10_thm. Qed.
+Print Assumptions C09_all_classes_with_C10.
 
 (* "survives the codec", model side: whatever toProtocolTreeNode (put) produces from an
    entity whose emitted strings are codec-safe is a tree the binary codec can carry
    (codec_wf = C01's domain).  That such trees survive encode/decode is C01's theorem; the
    C09 harness additionally pushes every real output through the real encoder+decoder. *)
-Theorem C09_put_wf : forall sc v n,
-  codec_safe sc = true -> val_wf sc v = true -> put sc v = Some n -> codec_wf n = true.
+Theorem C09_put_wf : forall PL sc v n,
+  codec_safe sc = true -> val_wf PL sc v = true -> put PL sc [] v = Some n -> codec_wf n = true.
 Proof. exact put_wf_thm. Qed.
 Print Assumptions C09_put_wf.
 
@@ -34,12 +70,13 @@ Theorem C09_registry_codec_safe : Forall (fun e => codec_safe (e_schema e) = tru
 Proof. exact registry_codec_safe_thm. Qed.
 Print Assumptions C09_registry_codec_safe.
 
-Theorem C09_all_classes_put_wf_partial : forall e v n, In e registry ->
-  val_wf (e_schema e) v = true -> put (e_schema e) v = Some n -> codec_wf n = true.
+Theorem C09_all_classes_put_wf_partial : forall PL e v n, In e registry ->
+  val_wf PL (e_schema e) v = true -> put PL (e_schema e) [] v = Some n -> codec_wf n = true.
 Proof. exact all_classes_put_wf_thm. Qed.
 Print Assumptions C09_all_classes_put_wf_partial.
 
-(* Open findings: the faithful schema of the class is NOT lossless on its documented shape. *)
+(* Open findings: the faithful schema of the class is NOT lossless on its documented shape
+   (stated with the ideal payload lens: not even a perfect payload converter helps). *)
 Theorem C09_ErrorIq_backoff0_refuted : refutes schema_ErrorIq_wide wit_ErrorIq.
 Proof. exact ErrorIq_backoff0_refuted. Qed.
 Print Assumptions C09_ErrorIq_backoff0_refuted.
@@ -48,6 +85,14 @@ Theorem C09_RemoveGroupsNotification_mode_refuted :
   refutes schema_RemoveGroupsNotification_mode wit_RemoveGroups.
 Proof. exact RemoveGroupsNotification_mode_refuted. Qed.
 Print Assumptions C09_RemoveGroupsNotification_mode_refuted.
+
+Theorem C09_Message_offline_refuted : refutes (msg_in_offline_wide ty_any KNil) wit_Message_offline.
+Proof. exact Message_offline_refuted. Qed.
+Print Assumptions C09_Message_offline_refuted.
+
+Theorem C09_Message_retry0_refuted : refutes (msg_in_retry_wide ty_any KNil) wit_Message_retry0.
+Proof. exact Message_retry0_refuted. Qed.
+Print Assumptions C09_Message_retry0_refuted.
 
 (* Repaired defects (fixes/C09-*.patch): witnesses against the pre-fix behaviour. *)
 Theorem C09_prefix_variants_refuted :
